@@ -470,6 +470,21 @@ def run_api(case: dict) -> CaseResult:
             res.violations.append(Violation(ID, "c04:api:not-closed", ";".join(left[:4])))
         if any(e["kind"] == "deliver" and not (what == "api_name" and e["type"] in (2, 4)) for e in env.trace):
             res.violations.append(Violation(ID, "c04:api:delivery-despite-deviation", what))
+    if what == "keystr" and case["s"] != "":
+        # whatever 'is base64 for exactly 32 bytes' means for the odd strings (missing fill characters, blanks), it
+        # means ONE thing: the key handed to the client and the same key handed to the frame helper get the same verdict
+        from aioesphomeapi._frame_helper.noise import APINoiseFrameHelper
+
+        fstub.loop()
+        try:
+            APINoiseFrameHelper(connection=fstub.StubConnection(), noise_psk=case["s"], expected_name=None, client_info="v", log_name="v")
+            direct_rejected = False
+        except Exception:  # noqa: BLE001
+            direct_rejected = True
+        api_rejected = outcome == "InvalidEncryptionKeyAPIError" and not any(e["kind"] == "write" for e in env.trace)
+        if direct_rejected != api_rejected:
+            res.violations.append(Violation(ID, "c04:api:keystr:verdict-depends-on-the-entry-point",
+                                            f"key string {case['s'][:60]!r}: frame helper {'rejects' if direct_rejected else 'accepts'} it, connect() {'rejects' if api_rejected else 'accepts'} it (outcome {outcome})"))
     res.classes = ["api", "api_" + what] + (["keystr"] if what == "keystr" else ["handshake_phase"] if what in ("dev", "wrong_key", "api_name") else ["framing"])
     res.nontrivial = want is not None
     res.info = {"what": what, "outcome": outcome}
@@ -492,6 +507,7 @@ KEYSTR_FIXED = (
     [b64_encode(bytes(range(n))) for n in range(0, 65)]
     + ["A" * n for n in (1, 5, 9, 41, 45)]
     + ["x" * 43 + "é", "AAAAAAAAAAAAAAAAAAAAAAAAAAAAAAAAAAAAAAAAAAA= ", "ключ", "１２３４", b64_encode(bytes(32))[:-2] + "é=", "​" + b64_encode(bytes(32))]
+    + [b64_encode(bytes(range(32))).rstrip("="), b64_encode(bytes(range(1, 33))).rstrip("="), b64_encode(bytes(range(31))).rstrip("="), b64_encode(bytes(range(32))) + "=", b64_encode(bytes(range(32))) + "=="]
     + [" " + b64_encode(bytes(32)), b64_encode(bytes(32)) + "\n", b64_encode(bytes(32)).replace("A", "-", 1), b64_encode(bytes(32))[:-1], b64_encode(bytes(31)) + "!!!!", "====", "not base64 at all"]
 )
 
